@@ -31,8 +31,18 @@ def scenario(ctx, i, jfa=True):
                 s["n"] = shared.copy()
             s["n"] = np.maximum(s["n"], 0.05)  # every component gets some mass over the training set
             s["f"] = np.where(np.isfinite(mean), mean, 0.0) * s["n"][:, None]
+    if sc["C"] >= 2 and len(sc["classes"]) >= 2 and r.random() < 0.3:
+        # sparse statistics: one class never visits one of the Gaussians (count exactly 0 there, positive elsewhere and in the
+        # other classes, so the component still has mass over the training set)
+        k, c = int(r.integers(0, len(sc["classes"]))), int(r.integers(0, sc["C"]))
+        for s in sc["classes"][k]:
+            s["n"] = np.array(s["n"], dtype=float)
+            s["f"] = np.array(s["f"], dtype=float)
+            s["n"][c] = 0.0
+            s["f"][c] = 0.0
     sc["iters"] = int(r.integers(1, 4))
     sc["interleave"] = int(r.integers(0, 10**6)) if r.random() < 0.5 else None
+    sc["int_counts"] = bool(counts == "integer" and r.random() < 0.6)
     sc["int_subspaces"] = bool(r.random() < 0.25)
     if sc["int_subspaces"]:
         sc["U"] = np.rint(np.asarray(sc["U"]) * 2.0)
@@ -114,7 +124,7 @@ def correspondence(ctx):
         ctx.case([core.tolist(sc["U"]), core.tolist([[s["f"] for s in c] for c in sc["classes"]]), sc["iters"]],
                  nontrivial=len(sc["classes"]) >= 2 and max(len(c) for c in sc["classes"]) >= 2,
                  sample={"machine": "jfa" if sc["jfa"] else "isv", "C": C, "D": D, "rU": rU, "rV": rV, "sessions_per_class": [len(c) for c in sc["classes"]], "iters": sc["iters"]})
-        inp = {k: sc[k] for k in ("C", "D", "rU", "rV", "jfa", "w", "m", "v", "U", "V", "Dd", "classes", "iters", "interleave", "int_subspaces")}
+        inp = {k: sc[k] for k in ("C", "D", "rU", "rV", "jfa", "w", "m", "v", "U", "V", "Dd", "classes", "iters", "interleave", "int_subspaces", "int_counts", "layout") if k in sc}
         im = core.impl(lambda: impl_first_steps(sc))
         if isinstance(im, core.ImplError):
             bad.append({"op": "fa_train:jfa_fit" if sc["jfa"] else "fa_train:isv_fit", "input": inp, "impl": repr(im)})
@@ -246,7 +256,7 @@ def search(ctx):
         f = oracle(sc, 3 if ctx.tier == "quick" else 6, per_class)
         if f and f["sig"] not in seen:
             seen.add(f["sig"])
-            f["input"] = {**{k: sc[k] for k in ("C", "D", "rU", "rV", "jfa", "w", "m", "v", "U", "V", "Dd", "classes", "iters", "interleave", "int_subspaces")}, "per_class": per_class}
+            f["input"] = {**{k: sc[k] for k in ("C", "D", "rU", "rV", "jfa", "w", "m", "v", "U", "V", "Dd", "classes", "iters", "interleave", "int_subspaces", "int_counts", "layout") if k in sc}, "per_class": per_class}
             fails.append(f)
     return fails
 
